@@ -35,6 +35,9 @@ static CASE_LIMIT_MS: AtomicU64 = AtomicU64::new(0);
 thread_local!(static PANIC_MSG: std::cell::RefCell<Option<String>> = std::cell::RefCell::new(None));
 // results of the earlier calls of the current case (same thread): returned define table and text,
 // so that a later call can be fed with them ("defines_from": i, "text_from": i)
+// persistent text buffers of the current case thread: a raw entry point called with "buf": i parses the text
+// out of buffer i, whose allocation (hence the text POINTER, which is part of the memo key) never changes
+thread_local!(static BUFS: std::cell::RefCell<Vec<String>> = std::cell::RefCell::new(Vec::new()));
 thread_local!(static SAVED: std::cell::RefCell<Vec<(Option<Defines>, Option<String>)>> = std::cell::RefCell::new(Vec::new()));
 
 fn now_ms() -> u64 {
@@ -496,7 +499,21 @@ fn do_call(call: &Value) -> Value {
         // raw nom entry points on a given text (persistent buffer owned by the case)
         "raw_sv" | "raw_sv_incomplete" | "raw_lib" | "raw_lib_incomplete" | "raw_pp" => {
             let s = text_in.clone().unwrap_or_default();
-            raw_call(f, &s, call, &mut out);
+            if let Some(bi) = call.get("buf").and_then(|x| x.as_u64()) {
+                BUFS.with(|b| {
+                    let mut b = b.borrow_mut();
+                    while b.len() <= bi as usize {
+                        b.push(String::with_capacity(1 << 20));
+                    }
+                    let buf = &mut b[bi as usize];
+                    buf.clear();
+                    buf.push_str(&s);
+                    out.insert("buf_ptr".into(), json!(buf.as_ptr() as usize));
+                    raw_call(f, buf.as_str(), call, &mut out);
+                });
+            } else {
+                raw_call(f, &s, call, &mut out);
+            }
         }
         _ => {
             out.insert("outcome".into(), json!("toolerror"));
